@@ -141,6 +141,15 @@ def _try_join(options):
             elif issubclass(result_type, BitVector) and issubclass(
                 option_type, BitVector
             ):
+                # Do not join vectors of different kinds. The conversion via the
+                # joined type would accept assignments, that are not possible
+                # directly (for example BitVector[8] -> Signed[8] -> Signed[16]).
+                for vector_kind in (Signed, Unsigned):
+                    if issubclass(result_type, vector_kind) != issubclass(
+                        option_type, vector_kind
+                    ):
+                        return None
+
                 r_signed = isinstance(result_type, Signed)
                 r_unsigned = isinstance(result_type, Unsigned)
 
